@@ -1,12 +1,15 @@
 (** C15 -- lists of every admissible length survive; counts and capacities agree.
     Proofs are in Proofs/SizeProofs.v and Proofs/DecodeBound.v; the layouts are regenerated from the
     msg!/frag_vec!/... invocations of /repo on every run and the table obligations re-checked.
-    PARTIAL: that the count on the wire equals the number of elements and that decoding returns them in
-    order rests on the bit-packing round trip (C07) and is covered by the correspondence only. *)
+    For the 55 plain layouts [C15_lists_survive] (from Proofs/RoundTrip.v): whatever the encoder accepts
+    decodes, and the decoded value has the same shape -- every list, at every nesting level, has as many
+    elements as were encoded, in the same positions (so the count on the wire is the number of elements).
+    PARTIAL: the MSM and code-bias structures are covered separately (C10, C16); the 1029 text is not. *)
 From Coq Require Import ZArith List Lia Bool.
 From RtcmModel Require Import Types BitIO Field Layout Message Top.
 From RtcmGen Require Import GenSignals GenLayouts.
-From RtcmProofs Require Import ListZ SizeProofs DecodeBound.
+From RtcmGen Require Import GenMessages.
+From RtcmProofs Require Import ListZ SizeProofs DecodeBound FieldProofs RoundTrip.
 Import ListNotations.
 Open Scope Z_scope.
 
@@ -63,6 +66,28 @@ Theorem C15_over_capacity_str : forall cap lb data off len off1,
   parse KU 8 data off lb = Ok (len, off1) -> cap < len -> t_decode_frag (FStr cap lb) data off = Err CapacityExceeded.
 Proof. intros. eapply str_over_capacity; eassumption. Qed.
 
+(** table obligation: in every plain layout each capacity is below 2^(width of its count field) *)
+Lemma plain_counts : forallb (fun m => negb (plain (snd m)) || counts_ok (snd m)) messages = true.
+Proof. vm_compute. reflexivity. Qed.
+
+(** lists of every length the encoder accepts survive: the body decodes, and the decoded value has the shape of
+    the encoded one -- each list keeps its number of elements and their order, at every nesting level *)
+Theorem C15_lists_survive : forall n lay d o v d' o', In (n, lay) messages -> plain lay = true ->
+  bytes_ok d = true -> 0 <= o -> t_encode_frag lay (d, o) v = Ok (d', o') ->
+  exists v', t_decode_frag lay d' o = Ok (v', o') /\ shape v v'.
+Proof.
+  intros n lay d o v d' o' Hin Hp Hb Ho E.
+  pose proof plain_counts as Hc. rewrite forallb_forall in Hc. specialize (Hc _ Hin). cbn [snd] in Hc. rewrite Hp in Hc. cbn [negb orb] in Hc.
+  destruct (accepted_decodes sig_table ssr_table_1059 ssr_table_1065 SAT_CAP_1059 SAT_CAP_1065 lay Hp Hc d o v d' o' Hb Ho E) as [_ [_ [_ [_ Hv]]]]. exact Hv.
+Qed.
+
+(** what [shape] says about lists *)
+Theorem C15_shape_list : forall l v', shape (VList l) v' -> exists l', v' = VList l' /\ length l' = length l /\ Forall2 shape l l'.
+Proof.
+  intros l v' H. inversion H as [la lb Hf| |a b Ha Hb]; subst; [|discriminate Ha].
+  exists lb. split; [reflexivity|]. split; [|exact Hf]. clear H. induction Hf; cbn [length]; congruence.
+Qed.
+
 (** only message 1029 carries the free-text field excluded above *)
 Theorem C15_no_utf8_all_but_1029 : forallb (fun m => no_utf8 (snd m) || (fst m =? 1029)) messages = true.
 Proof. vm_compute. reflexivity. Qed.
@@ -74,3 +99,5 @@ Print Assumptions C15_layouts_fit.
 Print Assumptions C15_counts_fit.
 Print Assumptions C15_size.
 Print Assumptions C15_truncated.
+Print Assumptions C15_lists_survive.
+Print Assumptions C15_shape_list.
